@@ -645,6 +645,116 @@ fn case_fault_during_manual_compaction(out: &mut CaseOut, seed: u64, idx: u64) {
     out.sample = Some(json!({"family": "fault-during-manual-compaction", "ctx": ctx, "worker_parked_mid_merge": parked, "write_failed": failed_write, "request_withdrawn_while_parked": withdrawn}));
 }
 
+/// A memtable flush nested inside a table compaction whose manifest record needs two log fragments
+/// (keys of about 20 KiB make every file's key range larger than a 32 KiB log block) and the write
+/// of the second fragment fails once. Whatever the compaction thread does afterwards, the manifest
+/// has to stay readable: after close and a fault-free reopen every acknowledged write is there.
+fn case_manifest_fault_in_nested_flush(out: &mut CaseOut, seed: u64, idx: u64) {
+    use crate::director::{set_role, COMPACTOR};
+    use std::time::Duration;
+    let mut rng = Rng::new(mix(&[seed, idx], "c08-nested"));
+    let d = director();
+    d.reset(rng.next_u64());
+    let cfg = Config { memtable: 96 * 1024, file: 64 * 1024, block: 4096, reuse: rng.chance(0.5) };
+    let fs = SimFs::from_image(&dbutil::root_image());
+    let mut sess = Session::new(fs.clone(), cfg);
+    sess.fill_cache = false;
+    if let Err(e) = sess.open() {
+        out.violate("C08/open-failed-without-any-fault-fired", json!({"error": e}));
+        return;
+    }
+    let long_key = |i: u64| -> Vec<u8> {
+        let mut k = format!("key{i:03}-").into_bytes();
+        k.resize(20 * 1024, b'a' + (i % 26) as u8);
+        k
+    };
+    let mut counter = 0u64;
+    let mut acked: std::collections::BTreeMap<Vec<u8>, Vec<u8>> = Default::default();
+    let mut put = |sess: &mut Session, i: u64, counter: &mut u64| -> bool {
+        *counter += 1;
+        let (k, v) = (long_key(i), format!("v{}-{}", *counter, "q".repeat(30)).into_bytes());
+        let ok = sess.put(&k, &v).is_ok();
+        if ok {
+            acked.insert(k, v);
+        }
+        ok
+    };
+    for round in 0..2 {
+        for i in 0..8 {
+            if !put(&mut sess, i, &mut counter) {
+                out.inconclusive("degenerate: load refused");
+                return;
+            }
+        }
+        let _ = round;
+        sess.compact(None, None);
+    }
+    for i in 0..4 {
+        let _ = put(&mut sess, i * 2, &mut counter);
+    }
+    sess.compact(Some(b"zzzz"), Some(b"zzzz")); // pure flush
+    sess.wait_quiescent(Duration::from_secs(20));
+    let nth = idx % 3; // which write to the manifest fails: first fragment, second fragment, third
+    let ctx = json!({"family": "manifest-fault-in-nested-flush", "config": cfg.describe(), "key_bytes": 20 * 1024, "fault": {"call": "write", "on": "manifest", "occurrence": nth, "mode": "transient"}});
+    let gate = d.arm(COMPACTOR, "compact.step", 2);
+    let db = sess.db_arc();
+    let requester = std::thread::Builder::new().name("c08-compactor-client".into()).spawn(move || {
+        set_role(2);
+        let _g = watch::enter("compact_range(whole range)");
+        db.compact_range(None..None);
+        drop(db);
+    }).unwrap();
+    let parked = d.wait_arrived(gate, Duration::from_secs(20));
+    let mut rotated = false;
+    if parked {
+        // fill the memtable until it is rotated: the parked compaction will find an immutable
+        // memtable at its next step and flush it from inside the table compaction
+        let rot0 = d.note_count("mem.rotate");
+        for i in 0..8u64 {
+            if !put(&mut sess, 20 + i, &mut counter) {
+                break;
+            }
+            if d.note_count("mem.rotate") > rot0 {
+                rotated = true;
+                break;
+            }
+        }
+        fs.arm_fault(Some(Fault { kind: OpKind::Write, class: PathClass::Manifest, nth, mode: FaultMode::Transient, after_effect: false }));
+    }
+    d.release(gate);
+    let _ = requester.join();
+    sess.wait_quiescent(Duration::from_secs(20));
+    let fired = fs.fault_fired().0 > 0;
+    fs.arm_fault(None);
+    out.add("nested_flush_fault_runs", 1);
+    sess.close();
+    match sess.open() {
+        Err(e) => out.violate("C08/open-failed-after-fault-removed", json!({"ctx": ctx, "error": e, "files": fs.image().listing(), "fault_fired": fired, "memtable_rotated_while_parked": rotated})),
+        Ok(()) => {
+            for (k, v) in &acked {
+                match sess.get(k) {
+                    Ok(Some(got)) if got == *v => {}
+                    Ok(got) => {
+                        out.violate("C08/after-reopen/ok-write-lost", json!({"ctx": ctx, "key": show(&k[..8]), "got": got.as_ref().map(|v| show(v)), "expected": show(v)}));
+                        break;
+                    }
+                    Err(e) => {
+                        out.violate("C08/read-error-after-fault-removed-and-reopen", json!({"ctx": ctx, "key": show(&k[..8]), "error": e}));
+                        break;
+                    }
+                }
+            }
+            sess.close();
+        }
+    }
+    if parked && rotated && fired {
+        out.nontrivial(format!("nested-flush-manifest-fault/write{nth}"));
+    } else {
+        out.add("fault_not_reached", 1);
+    }
+    out.sample = Some(json!({"family": "manifest-fault-in-nested-flush", "ctx": ctx, "worker_parked_mid_merge": parked, "memtable_rotated_while_parked": rotated, "fault_fired": fired}));
+}
+
 /// One long-lived iterator stepped back and forth (seeks, next, prev, direction changes) over a
 /// database with many small tables while single table reads fail transiently. A step whose error
 /// is visible through `status()` (or a seek that returns an error) promises nothing; every step
@@ -724,9 +834,10 @@ pub fn run_case(tier: &str, seed: u64, idx: u64) -> CaseOut {
     // every 20th case is a group commit under a failing write-ahead log
     if idx % GROUP_EVERY == GROUP_EVERY - 1 {
         let j = idx / GROUP_EVERY;
-        match j % 4 {
-            2 => case_fault_during_manual_compaction(&mut out, seed, j / 4),
-            3 => case_iterator_faults(&mut out, seed, j / 4),
+        match j % 5 {
+            2 => case_fault_during_manual_compaction(&mut out, seed, j / 5),
+            3 => case_iterator_faults(&mut out, seed, j / 5),
+            4 => case_manifest_fault_in_nested_flush(&mut out, seed, j / 5),
             _ => case_group_fault(&mut out, seed, j),
         }
         return out;
